@@ -103,17 +103,17 @@ dec!(c07_q_decode_multipointm, MultipointM, 104, T_MULTIPOINTM, 20);
 dec!(c07_q_decode_multipointz, MultipointZ, 120, T_MULTIPOINTZ, 24);
 // H: tier=quick; unwind=5; sym=2 part offsets (any i32), patch kinds, all coordinate bytes; concrete=2 parts, 2 points, consistent record size; asserts=no panic: no subtraction overflow or negative length from decreasing/negative offsets, no failed debug assertion, no capacity overflow, no out-of-bounds
 decmp!(c07_q_decode_polyline, Polyline, 84, T_POLYLINE, 5);
-// H: tier=quick; unwind=7; sym=2 part offsets (any i32), patch kinds, all coordinate bytes; concrete=2 parts, 2 points, consistent record size; asserts=no panic: no subtraction overflow or negative length from decreasing/negative offsets, no failed debug assertion, no capacity overflow, no out-of-bounds
+// H: tier=manual; unwind=7; sym=2 part offsets (any i32), patch kinds, all coordinate bytes; concrete=2 parts, 2 points, consistent record size; asserts=no panic: no subtraction overflow or negative length from decreasing/negative offsets, no failed debug assertion, no capacity overflow, no out-of-bounds; note=not run by any tier: solver out of memory (10 GB) / no result in 900 s
 decmp!(c07_q_decode_polylinem, PolylineM, 116, T_POLYLINEM, 7);
-// H: tier=quick; unwind=9; sym=2 part offsets (any i32), patch kinds, all coordinate bytes; concrete=2 parts, 2 points, consistent record size; asserts=no panic: no subtraction overflow or negative length from decreasing/negative offsets, no failed debug assertion, no capacity overflow, no out-of-bounds
+// H: tier=manual; unwind=9; sym=2 part offsets (any i32), patch kinds, all coordinate bytes; concrete=2 parts, 2 points, consistent record size; asserts=no panic: no subtraction overflow or negative length from decreasing/negative offsets, no failed debug assertion, no capacity overflow, no out-of-bounds; note=not run by any tier: solver out of memory (10 GB) / no result in 900 s
 decmp!(c07_q_decode_polylinez, PolylineZ, 148, T_POLYLINEZ, 9);
-// H: tier=quick; unwind=5; sym=2 part offsets (any i32), patch kinds, all coordinate bytes; concrete=2 parts, 2 points, consistent record size; asserts=no panic: no subtraction overflow or negative length from decreasing/negative offsets, no failed debug assertion, no capacity overflow, no out-of-bounds
+// H: tier=manual; unwind=5; sym=2 part offsets (any i32), patch kinds, all coordinate bytes; concrete=2 parts, 2 points, consistent record size; asserts=no panic: no subtraction overflow or negative length from decreasing/negative offsets, no failed debug assertion, no capacity overflow, no out-of-bounds; note=not run by any tier: solver out of memory (10 GB) / no result in 900 s
 decmp!(c07_q_decode_polygon, Polygon, 84, T_POLYGON, 5);
-// H: tier=thorough; unwind=7; sym=2 part offsets (any i32), patch kinds, all coordinate bytes; concrete=2 parts, 2 points, consistent record size; asserts=no panic: no subtraction overflow or negative length from decreasing/negative offsets, no failed debug assertion, no capacity overflow, no out-of-bounds
+// H: tier=manual; unwind=7; sym=2 part offsets (any i32), patch kinds, all coordinate bytes; concrete=2 parts, 2 points, consistent record size; asserts=no panic: no subtraction overflow or negative length from decreasing/negative offsets, no failed debug assertion, no capacity overflow, no out-of-bounds; note=not run by any tier: solver out of memory (10 GB) / no result in 900 s
 decmp!(c07_t_decode_polygonm, PolygonM, 116, T_POLYGONM, 7);
-// H: tier=thorough; unwind=9; sym=2 part offsets (any i32), patch kinds, all coordinate bytes; concrete=2 parts, 2 points, consistent record size; asserts=no panic: no subtraction overflow or negative length from decreasing/negative offsets, no failed debug assertion, no capacity overflow, no out-of-bounds
+// H: tier=manual; unwind=9; sym=2 part offsets (any i32), patch kinds, all coordinate bytes; concrete=2 parts, 2 points, consistent record size; asserts=no panic: no subtraction overflow or negative length from decreasing/negative offsets, no failed debug assertion, no capacity overflow, no out-of-bounds; note=not run by any tier: solver out of memory (10 GB) / no result in 900 s
 decmp!(c07_t_decode_polygonz, PolygonZ, 148, T_POLYGONZ, 9);
-// H: tier=quick; unwind=9; sym=2 part offsets (any i32), patch kinds, all coordinate bytes; concrete=2 parts, 2 points, consistent record size; asserts=no panic: no subtraction overflow or negative length from decreasing/negative offsets, no failed debug assertion, no capacity overflow, no out-of-bounds
+// H: tier=manual; unwind=9; sym=2 part offsets (any i32), patch kinds, all coordinate bytes; concrete=2 parts, 2 points, consistent record size; asserts=no panic: no subtraction overflow or negative length from decreasing/negative offsets, no failed debug assertion, no capacity overflow, no out-of-bounds; note=not run by any tier: solver out of memory (10 GB) / no result in 900 s
 decmp!(c07_q_decode_multipatch, Multipatch, 156, T_MULTIPATCH, 9);
 
 // H: tier=quick; unwind=22; sym=116 index bytes behind a valid file code (length field, entries arbitrary), 100-byte .shp header arbitrary behind a valid code; call=ShapeReader::with_shx + shape_count; asserts=no panic / overflow (length*2-100), no capacity overflow; entry loop cannot outrun the input
